@@ -424,7 +424,10 @@ func runB(root, id string, eb *engineB) int {
 				map[string]interface{}{"property": id, "scenario": sc.Name, "schedule": v.Schedule, "clause": v.Clause,
 					"detail": v.Detail, "outcome": v.Outcome, "crash": v.Crash, "blocked": v.Blocked})
 		}
-		if m.CompletedBound >= 0 && len(m.Violations) == 0 {
+		// vacuity guard: only when the requested bound was completed (a run cut
+		// short by its deadline on a loaded machine reports exhaustive:false
+		// instead of failing)
+		if m.CompletedBound >= bound && len(m.Violations) == 0 {
 			for _, f := range sc.MustFlag {
 				if m.Flags[f] == 0 {
 					chk.EngineError("%s: vacuous exploration: collision predicate %q never satisfied", sc.Name, f)
